@@ -23,6 +23,7 @@ LEVEL_TEXT = ('static: source of the send instant (taint), RT/NRT timetag decisi
 LEVEL_NOTE = 'ordering within equal times is delegated to C09 (TaskQueue FIFO)'
 LEVEL_TEXT_ADD = " Also: score read-out order (shared with C09.key), tail marker after the latest entry, caller's bundle list copied before it is rewritten."
 LEVEL_TEXT_ADD += ' Rounds e-f: tail marker in a routine (known finding); the score queue keeps the priority-queue contract (shared with C09).'
+LEVEL_TEXT_ADD += ' Round i: no interface overrides the nested-time rule or the element handling of the bundle encoder.'
 LEVEL_TEXT = (globals().get('LEVEL_TEXT') or EXPLANATION) + LEVEL_TEXT_ADD
 TECHNIQUE = 'static analysis: taint of the send instant + sibling normal-form comparison + structural checks of the score'
 
